@@ -4,6 +4,7 @@ import TF.Model.HashTip5
 import TF.Model.HashTip5Fast
 import TF.Model.MmrSucc
 import TF.Spec.MmrE
+import TF.Gen.MmrProofLoops
 /-!
 driver handler for the family `mmrs` (C12, `MmrSuccessorProof`).
 
@@ -106,6 +107,14 @@ def tamperReply (oc : Nat) (op leafs : List Dg) (kind : String) (pos : Nat) (d :
     pure (okBool (verify Hh dflt p' o' n'))
   | _, _ => some "panic"
 
+/-! BT7: `MmrSuccessorProof::verify` **regenerated from source** (`TF/Gen/MmrProofLoops.lean`, tools/rs2lean_mmr.py) evaluated
+next to the hand model on every verification of the `gen` / `tamper` / `verify` ops: a false `_ok` flag is a panic (`none`); a
+difference is printed as `GEN-MISMATCH` (and therefore shows up as a disagreement with the implementation) -/
+def genVerifyAgrees (paths : List Dg) (old new : Acc Dg) : Bool :=
+  let g := if TF.Gen.Loops.mmrsp_verify_ok Hh [] dflt paths (old.count, old.peaks) (new.count, new.peaks)
+    then TF.Gen.Loops.mmrsp_verify Hh [] dflt paths (old.count, old.peaks) (new.count, new.peaks) else none
+  g == verify Hh dflt paths old new
+
 def mmrs : Handler
   | "gen", [.nat oc, op, leafs] => do
     let op ← op.natListList?
@@ -113,6 +122,7 @@ def mmrs : Handler
     let old : Acc Dg := { count := oc, peaks := op }
     pure <| match Acc.appendAll Hh leafs old, newFromBatchAppend Hh dflt old leafs with
       | some new, some paths =>
+        if !genVerifyAgrees paths old new then "GEN-MISMATCH MmrSuccessorProof::verify" else
         match verify Hh dflt paths old new with
         | some b => "ok:" ++ fmtDigests paths ++ ":" ++ fmtBool b
         | none => "panic"
@@ -125,12 +135,15 @@ def mmrs : Handler
     match Acc.appendAll Hh leafs old, newFromBatchAppend Hh dflt old leafs with
     | some new, some paths =>
       let (p', o', n') ← tamper kind pos d paths old new
+      if !genVerifyAgrees p' o' n' then pure "GEN-MISMATCH MmrSuccessorProof::verify" else
       pure (okBool (verify Hh dflt p' o' n'))
     | _, _ => pure "panic"
   | "verify", [.sym _, .nat oc, op, .nat nc, np, paths] => do
     let op ← op.natListList?
     let np ← np.natListList?
     let paths ← paths.natListList?
+    if !genVerifyAgrees paths { count := oc, peaks := op } { count := nc, peaks := np } then
+      pure "GEN-MISMATCH MmrSuccessorProof::verify" else
     pure (okBool (verify Hh dflt paths { count := oc, peaks := op } { count := nc, peaks := np }))
   | "hp", [l, r] => do
     let a ← l.natList?
